@@ -170,6 +170,8 @@ def long_scripts(rng, quick):
     add("nackresp", {"size": 1024}, 40000 * m, 8, ns=3, dis=2)
     add("nackgen", {"size": 32768, "max": 2}, 80000 * m, 6, ns=2, tick=5000)
     add("nackgen", {"size": 512, "skip": 2, "max": 1}, 40000 * m, 8, ns=3, dis=1, tick=50)
+    add("nackgen", {"size": 512, "max": 2, "uiw": 1}, 6000 * m, 12, ns=3, tick=0, wls=["loss", "burst", "mix"],
+        thens=["unbind0", "rebind0", "fresh0", "unbindall"])                                          # unbound inside the NACK write
     add("twcc", {}, 80000 * m, 5, ns=1, gapus=100, thens=["none", "drain", "none"])                   # no feedback: clamps at 2^15
     add("twcc", {}, 60000 * m, 8, ns=1, gapus=200, tick=300, thens=["none", "drain", "tick"])
     add("rfc8888", {"maxsize": 1200}, 60000 * m, 8, ns=2, tick=400, thens=["none", "tick"])
